@@ -205,11 +205,19 @@ func init() {
 					"some streams are left out of the advertised-window computation: "+strings.Join(extra, ", ")+" (bytes held for them are not charged, so the window never closes while memory grows)")
 			}
 			for _, r := range allReturns(g) {
-				v := r.Results[0]
-				if IsConstInt(0)(v) {
-					c.Dom("credit-floor", r, CmpCond(token.GEQ, AnyV, IsLoadOf(maxB)), "bytesQueued >= maxReceiveBufferSize")
-				} else {
-					c.Check(BinV(token.SUB, IsLoadOf(maxB), AnyV)(v), "credit-difference", c.Pos(r), "returns maxReceiveBufferSize - bytesQueued", "credit is not buffer minus queued bytes")
+				for _, lf := range leavesWithFacts(retResults(r)[0]) {
+					v := lf.Val
+					if IsConstInt(0)(v) {
+						okF := DominatedByExt(r, CmpCond(token.GEQ, AnyV, IsLoadOf(maxB)))
+						for _, f := range lf.Facts {
+							if CmpCond(token.GEQ, AnyV, IsLoadOf(maxB))(f.Cond, f.Taken) {
+								okF = true
+							}
+						}
+						c.Check(okF, "credit-floor", c.Pos(r), "0 only when bytesQueued >= maxReceiveBufferSize", "the credit is 0 on a path not guarded by bytesQueued >= maxReceiveBufferSize")
+					} else {
+						c.Check(BinV(token.SUB, IsLoadOf(maxB), AnyV)(v), "credit-difference", c.Pos(r), "returns maxReceiveBufferSize - bytesQueued", "credit is not buffer minus queued bytes")
+					}
 				}
 			}
 			gq := c.Fn("Stream.getNumBytesInReassemblyQueue")
